@@ -16,8 +16,10 @@ theorem tie_refpoint (A : Mat m n α) (o : Vec n Obj) (w : Vec n α) :
   funext i
   simp only [Gen.refpoint, Np.where, Np.equal, Np.max, Np.min, Np.abs, Np.multiply, Np.subtract, Np.squeeze, Np.asarray, Bc.zw,
     Red.red, Mp.mp, Truthy.t, EMul.emul, Agg.refpoint, Agg.referencePoint, Agg.colMax, Agg.colMin, id, sgn_eq_one, decide_eq_true_eq]
-  congr 1; funext j
-  by_cases h : o j = .max <;> simp [h, Obj.sgn]
+  first
+    | done
+    | rfl
+    | (congr 1; funext j; by_cases h : o j = .max <;> simp [h, Obj.sgn])
 
 /-- the code ranks this very score, in the direction the model's `evaluate` uses -/
 theorem tie_refpoint_rank : Gen.refpoint_rank_reverse = Eval.Method.rev .refpoint ∧ Gen.refpoint_rank_of_result = true := by decide
